@@ -321,6 +321,26 @@ pub fn run(ctx: &mut Ctx) {
     for _ in 0..ctx.count {
         let mut rng = ctx.rng.fork();
         let (mut ops, _) = gen_history(&mut rng);
+        if rng.chance(1, 6) {
+            // binary e-nodes over variables whose class lost some or all of its slots (redundant e-nodes with two distinct
+            // slots): the multi-patterns with repeated child variables must not identify the two slots
+            let var = |c: u32| ATerm { v: 2, fields: vec![CField::Slot(c)], children: vec![] };
+            let bin = |v: usize, a: ATerm, b: ATerm| ATerm { v, fields: vec![CField::App, CField::App], children: vec![a, b] };
+            let sym = |x: &str| ATerm { v: 16, fields: vec![CField::Lit(x.into())], children: vec![] };
+            let op = if rng.chance(2, 3) { 14 } else { 4 };
+            let mut o: Vec<Op> = vec![Op::Add(bin(op, var(4), var(8)))];
+            match rng.below(3) {
+                0 => o.push(Op::Add(sym("c"))),                     // both slots redundant
+                1 => o.push(Op::Add(ATerm { v: 10, fields: vec![CField::Slot(4)], children: vec![] })), // one slot redundant
+                _ => o.push(Op::Add(bin(op, var(4), var(2)))),      // k(x,y) = k(x,z): y redundant
+            }
+            o.push(Op::Union(0, 1));
+            if rng.chance(1, 2) {
+                o.insert(2, Op::Add(bin(if op == 14 { 4 } else { 14 }, var(8), var(4))));
+            }
+            o.push(Op::Query);
+            ops = o;
+        }
         if rng.chance(1, 2) {
             // binary nodes over variables (equal and different arguments), for the long multi-patterns
             let var = |c: u32| ATerm { v: 2, fields: vec![CField::Slot(c)], children: vec![] };
